@@ -8,7 +8,7 @@ RULE = ("interpolation: all transfer entry points incl. applyFMGInterpolation on
 
 
 def run(ctx):
-    ctx.prove(extra_modules=["GMGProofs.Props.C09s", "GMGProofs.Props.C09c"])
+    ctx.prove(extra_modules=["GMGProofs.Props.C09s", "GMGProofs.Props.C09c", "GMGProofs.Props.C10j"])
     h = ctx.build_harness("h_ops")
     hs = ctx.build_harness("h_solver")
     if ctx.tier == "quick":
